@@ -75,10 +75,10 @@ type Sim struct {
 	hist []histEv
 	// statistics for the non-triviality rules
 	NConfirm, NRollback, NConflictRemoved, NAbandon, NRedeliver, NLease, NReopen int
-	NUnconfSpendOfConfirmed, NImmatureCoinbase, NReconfirm, NMovedStatus        int
-	NRollbackCreditAndSpender, NCoinbaseDescRemoved, NLeaseInteresting          int
-	everConfirmed                                                             map[int]bool
-	everRolledBack                                                            map[int]bool
+	NUnconfSpendOfConfirmed, NImmatureCoinbase, NReconfirm, NMovedStatus         int
+	NRollbackCreditAndSpender, NCoinbaseDescRemoved, NLeaseInteresting           int
+	everConfirmed                                                                map[int]bool
+	everRolledBack                                                               map[int]bool
 }
 
 type histEv struct {
@@ -297,30 +297,30 @@ func (s *Sim) ActMine(t *rapid.T) bool {
 		}
 		s.Case.Class("flip-back-to-disconnected-block")
 	} else {
-	// optional coinbase first
-	for i := range s.U.Specs {
-		if s.U.Specs[i].Coinbase && bb.CanInclude(i) {
-			if rapid.IntRange(0, 2).Draw(t, "takeCoinbase") > 0 {
+		// optional coinbase first
+		for i := range s.U.Specs {
+			if s.U.Specs[i].Coinbase && bb.CanInclude(i) {
+				if rapid.IntRange(0, 2).Draw(t, "takeCoinbase") > 0 {
+					bb.Include(i)
+				}
+				break
+			}
+		}
+		preferMempool := rapid.IntRange(0, 3).Draw(t, "preferMempool") > 0
+		// universe order is a topological order, so a single pass builds a
+		// parent-first block
+		for i := range s.U.Specs {
+			if s.U.Specs[i].Coinbase || !bb.CanInclude(i) {
+				continue
+			}
+			p := 2 // of 6
+			if s.N.Mempool[i] == preferMempool {
+				p = 4
+			}
+			if rapid.IntRange(0, 5).Draw(t, "take") < p {
 				bb.Include(i)
 			}
-			break
 		}
-	}
-	preferMempool := rapid.IntRange(0, 3).Draw(t, "preferMempool") > 0
-	// universe order is a topological order, so a single pass builds a
-	// parent-first block
-	for i := range s.U.Specs {
-		if s.U.Specs[i].Coinbase || !bb.CanInclude(i) {
-			continue
-		}
-		p := 2 // of 6
-		if s.N.Mempool[i] == preferMempool {
-			p = 4
-		}
-		if rapid.IntRange(0, 5).Draw(t, "take") < p {
-			bb.Include(i)
-		}
-	}
 	}
 	blockTime := time.Unix(1_650_000_000+int64(h)*600, 0)
 	if len(bb.Txs) == 0 {
